@@ -7,7 +7,16 @@ SD=$1; shift
 M=/tmp/se-$$
 git -C /repo worktree add -q --detach $M HEAD || exit 3
 trap "git -C /repo worktree remove --force $M 2>/dev/null; git -C /repo worktree prune" EXIT
-if ! git -C $M apply $SD/patch.diff 2>/tmp/se-$$.err; then echo "APPLY-FAILED $(cat /tmp/se-$$.err | head -2)"; rm -f /tmp/se-$$.err; exit 3; fi
+PATCH=$SD/patch.diff
+[ -f $SD/patch.rebased.diff ] && PATCH=$SD/patch.rebased.diff
+if ! git -C $M apply $PATCH 2>/tmp/se-$$.err; then
+  # the tree has moved on (fix commits): try a 3-way merge and keep the rebased patch
+  if git -C $M apply --3way $SD/patch.diff >/dev/null 2>&1 && [ -z "$(git -C $M diff --name-only --diff-filter=U)" ]; then
+    git -C $M reset -q; git -C $M diff > $SD/patch.rebased.diff; PATCH=$SD/patch.rebased.diff; echo "patch rebased onto current HEAD (3-way)"
+  else
+    echo "APPLY-FAILED $(cat /tmp/se-$$.err | head -2)"; rm -f /tmp/se-$$.err; exit 3
+  fi
+fi
 rm -f /tmp/se-$$.err
 (cd $M && go build ./... ) >/dev/null 2>&1 || { echo "SEED-DOES-NOT-BUILD"; exit 3; }
 suite=$(cd $M && go test -vet=off -count=1 ./... 2>&1 | grep -E "^(FAIL|---|ok)" | grep -v "^ok" | head -5)
@@ -16,11 +25,11 @@ echo "suite-with-seed: ${suite:-all ok}"
 mkdir -p $M/seeddemo && cp $SD/demo_test.go $M/seeddemo/
 race=""; grep -q '"demo_needs_race": *true' $SD/meta.json 2>/dev/null && race="-race -count=5"
 (cd $M && go test -vet=off -count=1 $race ./seeddemo/ >/tmp/se-$$.demo 2>&1); d1=$?
-git -C $M apply -R $SD/patch.diff
+git -C $M apply -R $PATCH
 (cd $M && go test -vet=off -count=1 $race ./seeddemo/ >/dev/null 2>&1); d2=$?
 echo "demo: with-seed exit=$d1 (want !=0), without exit=$d2 (want 0)"
 rm -rf $M/seeddemo /tmp/se-$$.demo
-git -C $M apply $SD/patch.diff
+git -C $M apply $PATCH
 for p in "$@"; do
   VERIF_REPO=$M /verif/vcheck run $p --tier ${TIER:-quick} > /tmp/se-$$.out 2>&1; rc=$?
   echo "check $p tier=${TIER:-quick} exit=$rc viol_lines=$(grep -c '^VIOLATION' /tmp/se-$$.out) sigs: $(grep 'signature:' /tmp/se-$$.out | sed 's/^ *signature: //' | sort | uniq -c | sort -rn | head -3 | tr '\n' ';' | cut -c1-300)"
